@@ -34,7 +34,9 @@ ASSUMPTIONS = [
 # one simulated conversion + oracles
 # --------------------------------------------------------------------------------------------
 
-PREEMPT_CHOICES = [0, 0, 0, 0, 0, 0, 0, 0, 0, 0.003, 0.02, 0.1]   # a quarter of the runs pre-empt at source-line level
+# a third of the runs pre-empt at source-line level: uniformly per line (three rates), or mostly on the first lines
+# that follow an intercepted operation ('post': (rate elsewhere, rate on those lines))
+PREEMPT_CHOICES = [0, 0, 0, 0, 0, 0, 0, 0, (0.002, 0.3), 0.003, 0.02, 0.1]
 
 
 def simulate(spec, cap, buf, chooser, step_cap, preempt=None):
@@ -141,6 +143,8 @@ def probes_of(spec, cap, r):
     if (spec['route'] == 'segy_2d' and full[1] != 4) or (spec['route'] != 'segy_2d' and full[0] != 4):
         p['per_block_mode'] = 1
     p['route:' + spec['route']] = 1
+    if spec.get('window'):
+        p['windowed_conversion'] = 1
     p[f'cap:{cap}'] = 1
     if s.uncaught:
         p['thread_died_with_exception'] = 1
@@ -227,7 +231,10 @@ def one_run(ctx, run):
     spec, ref = pool[wl.randrange(len(pool))]
     cap, buf, policy = workloads.run_knobs(wl, spec)
     pre_p = wl.choice(PREEMPT_CHOICES)
-    preempt = [pre_p, f'{seed}:{run}'] if pre_p else None
+    if isinstance(pre_p, tuple):
+        preempt = [pre_p[0], f'{seed}:{run}', pre_p[1]]
+    else:
+        preempt = [pre_p, f'{seed}:{run}'] if pre_p else None
     chooser = core.make_chooser(policy, core.stream(seed, run, 'schedule'), est_steps=ref['steps'])
     step_cap = 10 * ref['steps'] + 400
     fs, r = simulate(spec, cap, buf, chooser, step_cap, preempt)
